@@ -62,8 +62,10 @@ def stmtPattern (k : String) : Option Tree :=
   else if k == "Delete" then some deletePattern
   else none
 
-/-- the only slot where `%%WHERE%%` is understood: field `Where` of a `Select` (`handleSelectStatement`) -/
-def whereSlot (k : String) (j : Nat) : Bool := k == "Select" && Tree.fieldIndex "Select" "Where" == some j
+/-- the only slot where `%%WHERE%%` is understood: field `Where` of a `Select` (`handleSelectStatement`); `aw = false`
+switches the placeholder off altogether (used once, to bootstrap the proof: `isWherePattern` itself runs the matcher
+on the `%%WHERE%%` constant) -/
+def whereSlot (aw : Bool) (k : String) (j : Nat) : Bool := aw && k == "Select" && Tree.fieldIndex "Select" "Where" == some j
 
 /-- the placeholders a node of kind `k` may be replaced by (`wh`: the node sits in the WHERE slot of a SELECT) -/
 def placeholdersFor (wh : Bool) (k : String) : List Tree :=
@@ -95,28 +97,27 @@ def genKids (σ : Sigma) (k : String) (j : Nat) (i : Nat) : List Tree → List T
   | [] => []
   | x :: xs =>
     if k == "ValTuple" && σ.has i .lov && valueLike x.kind then [listOfValuesPattern]
-    else gen σ (whereSlot k j) i x :: genKids σ k (j + 1) (i + x.size) xs
+    else gen σ (whereSlot true k j) i x :: genKids σ k (j + 1) (i + x.size) xs
 end
 
 /-- **`generalise t σ`** -/
 def generalise (t : Tree) (σ : Sigma) : Tree := gen σ false 0 t
 
+/-- **`matchT p t`**: the matcher (`checkSinglePatternMatch`) applied to pattern `p` and statement `t` -/
+def matchT (p t : Tree) : Bool := patMatch t p
+
 mutual
-/-- `isGen wh p t`: the pattern `p` is a generalisation of the statement (sub)tree `t` -/
-def isGen (wh : Bool) : Tree → Tree → Bool
+/-- `isGen aw wh p t`: the pattern `p` is a generalisation of the statement (sub)tree `t` (`wh`: `t` sits in the WHERE
+slot of a SELECT; `aw`: `%%WHERE%%` allowed at all) -/
+def isGen (aw wh : Bool) : Tree → Tree → Bool
   | p, .leaf b => p == .leaf b
   | p, .node k ks =>
-    (placeholdersFor wh k).contains p ||
-    (match p with
-     | .node k' ps => k' == k && isGenKids k 0 ps ks
-     | .leaf _ => false)
-def isGenKids (k : String) (j : Nat) : List Tree → List Tree → Bool
+    (placeholdersFor wh k).contains p || (!p.isLeaf && p.kind == k && isGenKids aw k 0 p.kids ks)
+def isGenKids (aw : Bool) (k : String) (j : Nat) : List Tree → List Tree → Bool
   | ps, [] => ps.isEmpty
   | ps, x :: xs =>
     (k == "ValTuple" && valueLike x.kind && ps == [listOfValuesPattern]) ||
-    (match ps with
-     | p :: ps' => isGen (whereSlot k j) p x && isGenKids k (j + 1) ps' xs
-     | [] => false)
+    (!ps.isEmpty && isGen aw (whereSlot aw k j) (ps.headD Tree.nil) x && isGenKids aw k (j + 1) ps.tail xs)
 end
 
 mutual
@@ -135,7 +136,7 @@ def positionsKids (k : String) (j : Nat) (i : Nat) : List Tree → List (Nat × 
   | [] => []
   | x :: xs =>
     (if k == "ValTuple" && valueLike x.kind then [(i, Act.lov)] else [])
-    ++ positions (whereSlot k j) i x ++ positionsKids k (j + 1) (i + x.size) xs
+    ++ positions (whereSlot true k j) i x ++ positionsKids k (j + 1) (i + x.size) xs
 end
 
 end AcraModel.Censor
